@@ -118,7 +118,9 @@ int run_cases(int argc, char **argv, F f)
   {
     Out o;
     f(parse_line(line), o);
-    std::cout << o.line << "\n";
+    // flushed per case: when a sanitizer aborts the process the lines of the cases before it must already be out,
+    // so that the runner attributes the crash to the right case
+    std::cout << o.line << "\n" << std::flush;
   }
   std::cout.flush();
   return 0;
